@@ -447,3 +447,38 @@ def m_c01(out, base) -> list[Violation]:
                     break
     vs += [v for v in m_c05(out) if v.signature.startswith(("stuck", "running-leftover"))]
     return vs
+
+
+# ---------------------------------------------------------------------------------------------- C18
+def m_c18(out) -> list[Violation]:
+    """one resume per signal: the suspending task is executed at most once plus once per signal sent (a signal
+    never resumes twice); every persistent signal sent while suspensions remain is consumed (the stage does not
+    stay SUSPENDED with an unconsumed persistent signal)"""
+    vs = []
+    sent = [a for a in out["actions"] if a[0] == "S"]
+    if not sent:
+        return vs
+    idx = out["idx"]
+    refs = {i: r for r, i in idx.items()}
+    for stage_i in {a[1] for a in sent}:
+        ref = refs[stage_i]
+        nsig = sum(1 for a in sent if a[1] == stage_i)
+        npers = sum(1 for a in sent if a[1] == stage_i and a[3])
+        spec = [s for s in out["case"]["spec"]["stages"] if s["ref"] == ref][0]
+        for t, steps in enumerate(spec.get("tasks", [])):
+            nsusp = sum(1 for x in steps if x.startswith("susp"))
+            if not nsusp:
+                continue
+            crashed_exec = sum(1 for (a, r) in zip(out["actions"], out["results"]) if a[0] == "X" and r.get("crashed") and r.get("polled") == "RunTask")
+            execs = sum(1 for e in out["ledger"] if e["ref"] == ref and e["task"] == t)
+            if execs > 1 + nsig + crashed_exec:
+                vs.append(Violation(
+                    what=f"the suspending task {(ref, t)} was executed {execs} times although only {nsig} signal(s) were sent: a signal resumed the stage more than once",
+                    signature="signal-resumed-twice", replay=_replay(out)))
+            if out["quiescent"]:
+                fs = final_statuses(out)
+                if fs[ref] == "SUSPENDED" and npers >= nsusp:
+                    vs.append(Violation(
+                        what=f"stage {ref} is still SUSPENDED after {npers} persistent signal(s) for {nsusp} suspension(s): a persistent signal was lost",
+                        signature="persistent-signal-lost", replay=_replay(out)))
+    return vs
